@@ -28,7 +28,7 @@ var pyNew, pyOld *oracle.Server
 
 func TestMain(m *testing.M) {
 	kf, _ = known.Load(ev.KnownFile())
-	rec.Rule("(a) requirement strings generated from the PEP 508 grammar (names with mixed case and -_. runs, extras lists, bare and parenthesised specifier lists, markers, PEP 508 whitespace everywhere; no URL forms): pypi.ParseDependency must yield packaging's canonical name, extras (as a set), specifier (as a set of operator/version pairs) and marker (compared after normalising both through str(Marker())); CanonPackageName idempotent and equal to canonicalize_name; (b) marker expressions (and/or/parentheses to depth 3 over all variables and extra, every operator incl. in / not in / ~= / ===, literals at the version/string boundary): in a universe root -> P[extras E] -> Q guarded by m, Q is in the resolved graph iff packaging evaluates m to true in the library's fixed environment for some requested extra. Both checks assert only where packaging 26.x and pip's vendored 21.3 agree. Non-trivial: requirement with >= 2 of {extras, specifier, marker}; marker with >= 2 atoms or an atom at the version/string boundary. Distinct = distinct input text.")
+	rec.Rule("(a) requirement strings generated from the PEP 508 grammar (names with mixed case and -_. runs, extras lists, bare and parenthesised specifier lists, markers, PEP 508 whitespace everywhere; no URL forms): pypi.ParseDependency must yield packaging's canonical name, extras (as a set), specifier (as a set of operator/version pairs) and marker (compared after normalising both through str(Marker())); CanonPackageName idempotent and equal to canonicalize_name; (b) marker expressions (and/or/parentheses to depth 3 over all variables and extra, every operator incl. in / not in / ~= / ===, literals at the version/string boundary): in a universe root -> P[extras E] -> Q guarded by m, Q is in the resolved graph iff packaging evaluates m to true in the library's fixed environment for some requested extra. Both checks assert only where packaging 26.x and pip's vendored 21.3 agree. Non-trivial: requirement with >= 2 of {extras, specifier, marker}; marker with >= 2 atoms or an atom at the version/string boundary. Distinct = distinct input text. A quarter of the markers are evaluated after a variant of themselves (other letter case or spacing inside a literal; atoms comparing a variable with its actual value) in the same resolution.")
 	var err error
 	if pyNew, err = oracle.Start("py"); err == nil {
 		rec.Extra("oracle_py", pyNew.Version)
